@@ -7,9 +7,25 @@
 #
 import re
 
-from ural.patterns import URL_IN_TEXT_RE
+from ural.patterns import URL_IN_TEXT_RE, URL_WITH_PROTOCOL_RE
 
 IRRELEVANT_PUNCTUATION = set("!?#\"$%&'()*+,-.:;<=>@[\\]^_`{|}~…’‘`‛«»„‟“”-‐‒–—―−‑⁃,،、")
+
+
+def trim_irrelevant_punctuation(url):
+    last_punct = None
+
+    stop = len(url) - 1
+    i = stop
+
+    while i > 0 and url[i] in IRRELEVANT_PUNCTUATION and url[i] != last_punct:
+        last_punct = url[i]
+        i -= 1
+
+    if i != stop:
+        url = url[: i + 1]
+
+    return url
 
 
 def urls_from_text(string):
@@ -27,21 +43,17 @@ def urls_from_text(string):
         url = match.group(0)
         s = match.start()
 
-        if s > 0 and string[s - 1] == "[":
-            if "](" in url:
-                remainder, url = url.split("](", 1)
-                yield remainder.strip()
+        candidates = [url]
 
-        last_punct = None
+        # Markdown links, e.g. [https://lemonde.fr](https://lemonde.fr/article.html)
+        if s > 0 and string[s - 1] == "[" and "](" in url:
+            candidates = url.split("](", 1)
 
-        stop = len(url) - 1
-        i = stop
+        for candidate in candidates:
+            candidate = trim_irrelevant_punctuation(candidate.strip())
 
-        while i != 0 and url[i] in IRRELEVANT_PUNCTUATION and url[i] != last_punct:
-            last_punct = url[i]
-            i -= 1
+            # NOTE: what remains once split and trimmed might not be a url anymore
+            if not URL_WITH_PROTOCOL_RE.match(candidate):
+                continue
 
-        if i != stop:
-            url = url[: i + 1]
-
-        yield url
+            yield candidate
